@@ -1374,3 +1374,288 @@ Proof.
       apply Hother; [reflexivity|]. cbn [wstep]. rewrite Es. cbn [snd].
       destruct (snd (w_event _ i e)); reflexivity.
 Qed.
+
+(* ------------------------------------------------------------------ *)
+(** * 8. C08 at the level of the model *)
+
+Lemma is_eose_out_proj sub o : is_eose_out sub (proj_sub sub o) = is_eose_out sub o.
+Proof.
+  destruct o as [[s|s e|m|c|t|s p t]|]; cbn; try reflexivity.
+  - destruct (str_eqb s sub) eqn:E; cbn; [exact E | reflexivity].
+  - destruct (str_eqb s sub); reflexivity.
+Qed.
+
+Lemma forwarded_proj sub os : forwarded sub (List.map (proj_sub sub) os) = forwarded sub os.
+Proof.
+  induction os as [|[[s|s e|m|c|t|s p t]|] os IH]; cbn [List.map proj_sub forwarded]; try assumption; [reflexivity| |].
+  - destruct (str_eqb s sub); cbn [forwarded]; assumption.
+  - destruct (str_eqb s sub) eqn:E; cbn [forwarded]; [rewrite E; now rewrite IH | assumption].
+Qed.
+
+Lemma proj_sub_some sub o m : proj_sub sub o = Some m -> o = Some m.
+Proof.
+  destruct o as [[s|s e|m'|c|t|s p t]|]; cbn; try discriminate; destruct (str_eqb s sub); congruence.
+Qed.
+
+Lemma count_occ_b_map {A B} (f : A -> B) (p : B -> bool) l :
+  count_occ_b p (List.map f l) = count_occ_b (fun x => p (f x)) l.
+Proof. induction l as [|x l IH]; cbn; [reflexivity | now rewrite IH]. Qed.
+
+Lemma count_occ_b_ext {A} (p q : A -> bool) l : (forall x, p x = q x) -> count_occ_b p l = count_occ_b q l.
+Proof. intro H. induction l as [|x l IH]; cbn; [reflexivity | now rewrite H, IH]. Qed.
+
+Lemma win_sim n s sub fs w :
+  state_ok n s -> Forall filter_wf fs -> trace_ok n w -> no_reset sub w ->
+  List.map (proj_sub sub) (win_outs s sub fs w) = snd (wrun sub (ph0 n fs) w).
+Proof.
+  intros Hs Hfs Ht Hn. unfold win_outs.
+  assert (Hs1 : state_ok n (fst (merge_step s (CReq sub fs)))) by (apply step_ok; assumption).
+  destruct (run_sim n sub w _ Hs1 Ht Hn) as [_ H]. rewrite H. now rewrite (phase_after_req n s sub fs Hs).
+Qed.
+
+Lemma wrun_length sub ph w : length (snd (wrun sub ph w)) = length w.
+Proof. revert ph. induction w as [|x w IH]; intro ph; cbn; [reflexivity | now rewrite IH]. Qed.
+
+Lemma wrun_eose_count n sub fs w :
+  (1 <= n)%nat -> trace_ok n w ->
+  count_occ_b (is_eose_out sub) (snd (wrun sub (ph0 n fs) w)) = if all_eosed n sub w then 1%nat else 0%nat.
+Proof.
+  intro Hn. induction w as [|x w IH] using rev_ind; intro Ht.
+  - now rewrite (all_eosed_nil n sub Hn).
+  - destruct (trace_ok_snoc _ _ _ Ht) as [Ht1 Hx]. rewrite wrun_snoc. cbn [snd].
+    rewrite count_occ_b_app, (IH Ht1). cbn [count_occ_b].
+    rewrite (eose_step n sub fs w x Hn Ht).
+    destruct (all_eosed n sub w) eqn:Ea; cbn [negb andb].
+    + now rewrite (all_eosed_mono n sub w x Ea).
+    + destruct (all_eosed n sub (w ++ [x])); reflexivity.
+Qed.
+
+(** one merged EOSE per window if every child sent its own, none otherwise *)
+Theorem eose_exactly_once n s sub fs w :
+  (1 <= n)%nat -> state_ok n s -> Forall filter_wf fs -> trace_ok n w -> no_reset sub w ->
+  count_occ_b (is_eose_out sub) (win_outs s sub fs w) = if all_eosed n sub w then 1%nat else 0%nat.
+Proof.
+  intros Hn Hs Hfs Ht Hnr.
+  rewrite <- (wrun_eose_count n sub fs w Hn Ht), <- (win_sim n s sub fs w Hs Hfs Ht Hnr), count_occ_b_map.
+  apply count_occ_b_ext. intro o. now rewrite is_eose_out_proj.
+Qed.
+
+Lemma nth_error_mid {A} (a : list A) x b : nth_error (a ++ x :: b) (length a) = Some x.
+Proof. induction a as [|y a IH]; cbn; [reflexivity | exact IH]. Qed.
+
+Lemma wrun_nth sub ph w1 x w2 :
+  nth_error (snd (wrun sub ph (w1 ++ x :: w2))) (length w1) = Some (snd (wstep sub (fst (wrun sub ph w1)) x)).
+Proof.
+  rewrite wrun_app. cbn [snd wrun]. rewrite <- (wrun_length sub ph w1). apply nth_error_mid.
+Qed.
+
+Lemma no_reset_app sub a b : no_reset sub (a ++ b) -> no_reset sub a /\ no_reset sub b.
+Proof. intro H. split; intros x Hx; apply H; apply in_or_app; auto. Qed.
+
+Lemma trace_ok_app n a b : trace_ok n (a ++ b) -> trace_ok n a /\ trace_ok n b.
+Proof. intro H. now apply Forall_app in H. Qed.
+
+Lemma trace_ok_mid n a x b : trace_ok n (a ++ x :: b) -> trace_ok n (a ++ [x]).
+Proof.
+  intro H. apply Forall_app in H as [H1 H2]. inversion H2; subst.
+  apply Forall_app. split; [assumption | now constructor].
+Qed.
+
+(** the step at which the merged EOSE is output is the step at which the
+    set of children that have sent EOSE becomes complete — not earlier, and
+    (with [eose_exactly_once]) not again *)
+Theorem eose_at n s sub fs w1 x w2 :
+  (1 <= n)%nat -> state_ok n s -> Forall filter_wf fs ->
+  trace_ok n (w1 ++ x :: w2) -> no_reset sub (w1 ++ x :: w2) ->
+  exists o, nth_error (win_outs s sub fs (w1 ++ x :: w2)) (length w1) = Some o /\
+            is_eose_out sub o = negb (all_eosed n sub w1) && all_eosed n sub (w1 ++ [x]).
+Proof.
+  intros Hn Hs Hfs Ht Hnr.
+  pose proof (win_sim n s sub fs _ Hs Hfs Ht Hnr) as H.
+  pose proof (wrun_nth sub (ph0 n fs) w1 x w2) as Hw. rewrite <- H in Hw.
+  rewrite nth_error_map in Hw.
+  destruct (nth_error (win_outs s sub fs (w1 ++ x :: w2)) (length w1)) as [o|]; [|discriminate].
+  exists o. split; [reflexivity|]. cbn in Hw. inversion Hw as [Hw'].
+  rewrite <- is_eose_out_proj, Hw'. apply eose_step; [assumption | eapply trace_ok_mid; eauto].
+Qed.
+
+Theorem eose_not_early n s sub fs w1 x w2 o :
+  (1 <= n)%nat -> state_ok n s -> Forall filter_wf fs ->
+  trace_ok n (w1 ++ x :: w2) -> no_reset sub (w1 ++ x :: w2) ->
+  nth_error (win_outs s sub fs (w1 ++ x :: w2)) (length w1) = Some o -> is_eose_out sub o = true ->
+  (forall i, (i < n)%nat -> eosed sub (w1 ++ [x]) i = true) /\ all_eosed n sub w1 = false.
+Proof.
+  intros Hn Hs Hfs Ht Hnr Ho He.
+  destruct (eose_at n s sub fs w1 x w2 Hn Hs Hfs Ht Hnr) as [o' [Ho' E]].
+  rewrite Ho in Ho'. inversion Ho'; subst o'. rewrite He in E. symmetry in E.
+  apply andb_true_iff in E as [E1 E2]. apply negb_true_iff in E1. split; [|exact E1].
+  intros i Hi. unfold all_eosed in E2. rewrite forallb_forall in E2. apply E2. apply in_seq. lia.
+Qed.
+
+(** a closed subscription stays closed and silent until the next REQ for it *)
+Lemma closed_step n sub s x :
+  state_ok n s -> input_ok n x -> is_req_of sub x = false ->
+  rs_phase (st_rs s) sub = WClosed ->
+  rs_phase (st_rs (fst (merge_step s x))) sub = WClosed /\ is_eose_out sub (snd (merge_step s x)) = false.
+Proof.
+  intros Hs Hx Hnr Hc. destruct (is_close_of sub x) eqn:Ecl.
+  - destruct x as [| s' | | |]; try discriminate. cbn in Ecl. apply str_eqb_eq in Ecl. subst s'.
+    destruct Hs as [Hd _]. unfold merge_step. rewrite Hd. cbn [fst snd with_rs st_rs]. split; [|reflexivity].
+    unfold rs_phase. now rewrite rs_view_clear, str_dec_refl.
+  - destruct (step_sim n sub s x Hs Hx Hnr Ecl) as [P O]. rewrite Hc in P, O. split.
+    + rewrite P. apply wstep_closed.
+    + rewrite <- is_eose_out_proj, O.
+      destruct x as [| | | |i [s'|s' e| | | |]]; cbn; try reflexivity; destruct (str_eqb s' sub); reflexivity.
+Qed.
+
+Definition no_req (sub : str) (w : list input) : Prop := forall x, In x w -> is_req_of sub x = false.
+
+Lemma closed_run n sub w : forall s,
+  state_ok n s -> trace_ok n w -> no_req sub w -> rs_phase (st_rs s) sub = WClosed ->
+  count_occ_b (is_eose_out sub) (outs s w) = 0%nat.
+Proof.
+  induction w as [|x w IH]; intros s Hs Ht Hn Hc; [reflexivity|].
+  inversion Ht as [|? ? Hx Ht']; subst.
+  destruct (closed_step n sub s x Hs Hx (Hn x (or_introl eq_refl)) Hc) as [P O].
+  unfold outs. rewrite exec_cons. cbn [snd count_occ_b]. rewrite O.
+  apply IH; [now apply step_ok | assumption | intros y Hy; apply Hn; now right | assumption].
+Qed.
+
+(** no merged EOSE after the client closed the subscription (whatever the
+    children still send), until the id is used by a new REQ *)
+Theorem eose_none_after_close n s sub w :
+  state_ok n s -> trace_ok n w -> no_req sub w ->
+  count_occ_b (is_eose_out sub) (outs (fst (merge_step s (CClose sub))) w) = 0%nat.
+Proof.
+  intros Hs Ht Hn. apply (closed_run n sub w); try assumption.
+  - now apply step_ok.
+  - destruct Hs as [Hd _]. unfold merge_step. rewrite Hd. cbn [fst with_rs st_rs].
+    unfold rs_phase. now rewrite rs_view_clear, str_dec_refl.
+Qed.
+
+(** nor before the first REQ *)
+Theorem eose_none_before_req n sub w :
+  trace_ok n w -> no_req sub w -> count_occ_b (is_eose_out sub) (outs (init n) w) = 0%nat.
+Proof. intros Ht Hn. apply (closed_run n sub w); try assumption; [apply init_ok | reflexivity]. Qed.
+
+(** everything forwarded while some child has not sent EOSE *)
+Lemma pre_eose_inv n s sub fs w :
+  (1 <= n)%nat -> state_ok n s -> Forall filter_wf fs -> trace_ok n w -> no_reset sub w ->
+  all_eosed n sub w = false ->
+  exists la se ms, pre_inv fs la se ms (forwarded sub (win_outs s sub fs w)).
+Proof.
+  intros Hn Hs Hfs Ht Hnr Ha.
+  pose proof (window_inv n sub fs w Hn Ht) as H. unfold window_state in H. rewrite Ha in H.
+  destruct H as [la [se [ms [_ H]]]]. exists la, se, ms.
+  now rewrite <- forwarded_proj, (win_sim n s sub fs w Hs Hfs Ht Hnr).
+Qed.
+
+Theorem pre_eose_match n s sub fs w :
+  (1 <= n)%nat -> state_ok n s -> Forall filter_wf fs -> trace_ok n w -> no_reset sub w ->
+  all_eosed n sub w = false ->
+  forall e, In e (forwarded sub (win_outs s sub fs w)) -> matches_spec e fs.
+Proof.
+  intros Hn Hs Hfs Ht Hnr Ha e He.
+  destruct (pre_eose_inv n s sub fs w Hn Hs Hfs Ht Hnr Ha) as [la [se [ms [_ [H _]]]]].
+  rewrite Forall_forall in H. apply matches_specb_spec. now apply H.
+Qed.
+
+Theorem pre_eose_distinct n s sub fs w :
+  (1 <= n)%nat -> state_ok n s -> Forall filter_wf fs -> trace_ok n w -> no_reset sub w ->
+  all_eosed n sub w = false ->
+  NoDup (List.map ev_key (forwarded sub (win_outs s sub fs w))).
+Proof.
+  intros Hn Hs Hfs Ht Hnr Ha.
+  destruct (pre_eose_inv n s sub fs w Hn Hs Hfs Ht Hnr Ha) as [la [se [ms [_ [_ [H _]]]]]]. exact H.
+Qed.
+
+(** when an id determines its event (what the admission gate guarantees:
+    the id is the hash of the content), distinct means distinct ids *)
+Corollary pre_eose_distinct_ids n s sub fs w :
+  (1 <= n)%nat -> state_ok n s -> Forall filter_wf fs -> trace_ok n w -> no_reset sub w ->
+  all_eosed n sub w = false ->
+  (forall e1 e2, In e1 (forwarded sub (win_outs s sub fs w)) -> In e2 (forwarded sub (win_outs s sub fs w)) ->
+                 ev_id e1 = ev_id e2 -> ev_ts e1 = ev_ts e2) ->
+  NoDup (List.map ev_id (forwarded sub (win_outs s sub fs w))).
+Proof.
+  intros Hn Hs Hfs Ht Hnr Ha Hfun.
+  pose proof (pre_eose_distinct n s sub fs w Hn Hs Hfs Ht Hnr Ha) as H.
+  remember (forwarded sub (win_outs s sub fs w)) as l eqn:El. clear El.
+  induction l as [|a l IH]; cbn in *; [constructor|].
+  inversion H as [|? ? Hnin Hnd]; subst. constructor.
+  - intro Hin. apply in_map_iff in Hin as [b [Eb Hb]]. apply Hnin. apply in_map_iff. exists b. split; [|assumption].
+    unfold ev_key. f_equal; [|assumption]. apply Hfun; [now right | now left | assumption].
+  - apply IH; [|assumption]. intros e1 e2 H1 H2. apply Hfun; now right.
+Qed.
+
+Theorem pre_eose_sorted n s sub fs w :
+  (1 <= n)%nat -> state_ok n s -> Forall filter_wf fs -> trace_ok n w -> no_reset sub w ->
+  all_eosed n sub w = false ->
+  ts_noninc (forwarded sub (win_outs s sub fs w)).
+Proof.
+  intros Hn Hs Hfs Ht Hnr Ha.
+  destruct (pre_eose_inv n s sub fs w Hn Hs Hfs Ht Hnr Ha) as [la [se [ms [_ [_ [_ [H _]]]]]]]. exact H.
+Qed.
+
+Theorem pre_eose_limit_single n s sub f l w :
+  (1 <= n)%nat -> state_ok n s -> filter_wf f -> trace_ok n w -> no_reset sub w ->
+  all_eosed n sub w = false -> f_limit f = Some l ->
+  Z.of_nat (length (forwarded sub (win_outs s sub [f] w))) <= Z.max 0 l.
+Proof.
+  intros Hn Hs Hf Ht Hnr Ha Hl.
+  assert (Hfs : Forall filter_wf [f]) by (constructor; [assumption | constructor]).
+  destruct (pre_eose_inv n s sub [f] w Hn Hs Hfs Ht Hnr Ha) as [la [se [ms [Hm [_ [_ [_ [_ H]]]]]]]].
+  destruct ms as [|m [|m2 ms2]]; cbn in Hm; try discriminate. inversion Hm as [Em].
+  destruct (H m eq_refl) as [_ H2]. apply H2. now rewrite Em.
+Qed.
+
+(** after the merged EOSE every event a child emits for the subscription is
+    forwarded unchanged, at its own step — so each child's order is kept *)
+Theorem post_eose_passthrough n s sub fs w1 i e w2 :
+  (1 <= n)%nat -> state_ok n s -> Forall filter_wf fs ->
+  trace_ok n (w1 ++ Child i (SEvent sub e) :: w2) -> no_reset sub (w1 ++ Child i (SEvent sub e) :: w2) ->
+  all_eosed n sub w1 = true ->
+  nth_error (win_outs s sub fs (w1 ++ Child i (SEvent sub e) :: w2)) (length w1) = Some (Some (SEvent sub e)).
+Proof.
+  intros Hn Hs Hfs Ht Hnr Ha.
+  pose proof (win_sim n s sub fs _ Hs Hfs Ht Hnr) as H.
+  pose proof (wrun_nth sub (ph0 n fs) w1 (Child i (SEvent sub e)) w2) as Hw. rewrite <- H in Hw.
+  rewrite nth_error_map in Hw.
+  destruct (nth_error (win_outs s sub fs _) (length w1)) as [o|]; [|discriminate].
+  cbn [option_map] in Hw. inversion Hw as [Hw']. f_equal.
+  apply (proj_sub_some sub). rewrite Hw'.
+  destruct (trace_ok_app _ _ _ Ht) as [Ht1 _].
+  pose proof (window_inv n sub fs w1 Hn Ht1) as Hi. unfold window_state in Hi. rewrite Ha in Hi. rewrite Hi.
+  cbn. now rewrite str_eqb_refl.
+Qed.
+
+(** whatever is forwarded is the child's message itself; client messages
+    produce nothing on the client side *)
+Theorem subid_preserved s x o :
+  snd (merge_step s x) = Some o ->
+  exists i m, x = Child i m /\
+    match m with
+    | SOk _ => exists r, o = SOk r
+    | SCount _ => exists r, o = SCount r
+    | _ => o = m
+    end.
+Proof.
+  unfold merge_step. destruct (st_dead s); [discriminate|].
+  destruct x as [| | | |i m]; cbn [snd]; try discriminate.
+  intro H. exists i, m. split; [reflexivity|].
+  destruct m as [sub|sub e|m|c|t|sub p t].
+  - unfold send_eose in H. destruct (rs_all_eose (st_rs s) sub) as [r1 a1].
+    destruct (g_eose_already a1); [discriminate|].
+    destruct (rs_set_eose r1 sub i) as [r2|]; [|discriminate].
+    destruct (rs_all_eose r2 sub) as [r3 a2]. destruct (g_eose_incomplete a2); cbn in H; congruence.
+  - unfold send_event in H. destruct (rs_is_sendable (st_rs s) i sub e) as [[r' b]|]; [|discriminate].
+    destruct (g_event_unsendable b); cbn in H; congruence.
+  - unfold send_ok in H. destruct (os_set_msg (st_os s) i m) as [o1|]; [|discriminate].
+    destruct (g_ok_not_ready _); [discriminate|]. destruct (os_msg o1 (ok_id m)) as [r|]; [|discriminate].
+    exists r. cbn in H. congruence.
+  - unfold send_count in H. destruct (cs_set_msg (st_cs s) i c) as [c1|]; [|discriminate].
+    destruct (g_count_not_ready _); [discriminate|]. destruct (cs_msg c1 (c_sub c)) as [r|]; [|discriminate].
+    exists r. cbn in H. congruence.
+  - cbn in H. congruence.
+  - cbn in H. congruence.
+Qed.
